@@ -74,7 +74,10 @@ def evaluate(case):
     marker = {"syntax": "%%", "unknown_object": "nowhere", "not_unique": "dupname", "unresolvable_postponed": "waitforever"}[kind]
     extra = {}
     if kind == "unknown_object":
-        extra[bad] = ("", "use ubad -> nowhere\n")
+        # in a single reference, or as a later element of a reference list
+        shape = case["tok_pick"] % 3
+        lead = "" if shape == 0 else (f"d{bad}_0 , " if shape == 1 else f"d{bad}_0 , d{bad}_0 , ")
+        extra[bad] = ("", f"use ubad -> {lead}nowhere\n")
     elif kind == "not_unique":
         extra[bad] = ("def dupname\ndef other { def dupname }\n", "use udup -> dupname\n")
     elif kind == "unresolvable_postponed":
